@@ -47,6 +47,9 @@ Decided for derived-type argument expansion and duplicate-argument removal:
      subscript implies the full range ``:`` (truth table over its conditions); a
      filter that also admits ``lo:hi`` gives the dummy more elements than the
      passed section has.
+ R9  the same for the equal-rank case: ``shape=val.shape`` (the declared shape of
+     the actual) is given to the dummy only under a guard that makes the actual
+     the whole array -- ``b(2:n, :)`` has the rank of ``b`` but not its extents.
 Not decided: the index arithmetic of sequence-association resolution, explicit
 argument shapes, type-bound call rewriting, and the equivalence of the rewritten
 bodies.
@@ -441,8 +444,42 @@ def run_r5(ctx):
                           f'passed section is shorter', instance=inst)
     ctx.floor('R8', 'extents adopted from the dimensions of a passed section', n8, 1)
 
+    # ---- R9
+    ctx.rule('R9', "argument_shape.py: the declared shape of the actual is copied to a deferred-shape dummy (`shape=val.shape`) only under a "
+                   "guard that makes the actual the whole array (no subscripts, or `:` in every dimension)")
+    n9 = 0
+    for fn_ in [x for x in ast.walk(amod.tree) if isinstance(x, (ast.FunctionDef, ast.AsyncFunctionDef))]:
+        for a_, guards in X.nodes_with_guards(fn_, lambda x: isinstance(x, ast.Assign) and isinstance(x.targets[0], ast.Subscript), early=True):
+            shp = [k_.value for c_ in ast.walk(a_.value) if isinstance(c_, ast.Call) for k_ in c_.keywords
+                   if k_.arg == 'shape' and isinstance(k_.value, ast.Attribute) and k_.value.attr == 'shape' and isinstance(k_.value.value, ast.Name)]
+            if not shp:
+                continue
+            v = shp[0].value.id
+            if v == ast.unparse(a_.targets[0].slice):
+                continue            # the dummy's own shape
+            n9 += 1
+            gs = [g.replace(' ', '').replace('"', "'") for g in guards]
+            whole = any(g in (f"all((d==':'fordin{v}.dimensions))", f"all(d==':'fordin{v}.dimensions)", f'not{v}.dimensions',
+                              f"not(any((d!=':'fordin{v}.dimensions)))", f'len({v}.dimensions)==0') for g in gs)
+            if not whole:
+                import re as _re9
+                whole = any(_re9.fullmatch(rf"all\(\(?(\w+)==':'for\1in{v}\.dimensions\)?\)", g) for g in gs)
+            inst = f'{fn_.name}:{ast.unparse(a_.targets[0])}:shape={v}.shape'
+            if whole:
+                ctx.judge('R9', inst, facts={'guards': guards})
+            else:
+                ctx.violation('R9', f'{fn_.name}:declared-shape-of-a-section', f'{amod.relpath}:{a_.lineno}',
+                              f'`{ast.unparse(a_)[:90]}` gives the dummy the declared shape of `{v}` under [{"; ".join(guards)[:160]}], none of which '
+                              f'makes `{v}` the whole array: for a bounded section of equal rank such as b(2:n, :) the dummy is declared with more '
+                              f'elements than are passed', instance=inst)
+    ctx.floor('R9', 'copies of the declared shape of an actual argument', n9, 1)
+
 
 MUTANTS = [
+    Mutant('declared-shape-for-any-same-rank-actual', 'loki/transformations/argument_shape.py',
+           "                            if all(d == ':' for d in val.dimensions):\n                                vmap[arg] = arg.clone(type=arg.type.clone(shape=val.shape))",
+           "                            if True:\n                                vmap[arg] = arg.clone(type=arg.type.clone(shape=val.shape))",
+           expect=('R9', 'declared-shape-of-a-section')),
     Mutant('extent-of-any-range-subscript', 'loki/transformations/argument_shape.py', "                                         if d == ':']",
            "                                         if isinstance(d, sym.RangeIndex)]", expect=('R8', 'extent-of-partial-section')),
     Mutant('neutral-full-range-by-bounds', 'loki/transformations/argument_shape.py', "                                         if d == ':']",
